@@ -12,8 +12,12 @@ package main
 import (
 	"bytes"
 	"fmt"
+	"os"
+	"runtime"
 	"strconv"
 	"strings"
+	"sync/atomic"
+	"time"
 
 	"elaverif/harness/hx"
 	"elaverif/harness/wire"
@@ -35,6 +39,9 @@ func decodeOnce(t []string, b []byte) {
 func measure(t []string) uint64 {
 	var best uint64 = 1 << 62
 	b := hx.UnHex(t[len(t)-1])
+	curOp.Store(strings.Join(t, " "))
+	curStart.Store(time.Now().UnixNano())
+	defer curStart.Store(0)
 	// the minimum of two runs removes one-off runtime noise (GC bookkeeping, first-use tables)
 	for i := 0; i < 2; i++ {
 		m := wire.Measure(func() { decodeOnce(t, b) })
@@ -140,6 +147,46 @@ func bucket(t []string, out string) string {
 
 var _ = bytes.Equal
 
+// watchdog: a decoder that loops on a wire count or allocates without bound must not take the
+// machine down with it.  The op being executed is published; if it runs for more than 20 s or the
+// heap passes 3 GiB the process exits with status 2 after naming the op on stderr (the check
+// reports a process crash as a violation with that op).
+var (
+	curOp    atomic.Value
+	curStart atomic.Int64
+)
+
+func watched(f func(t []string) string) func(t []string) string {
+	return func(t []string) string {
+		curOp.Store(strings.Join(t, " "))
+		curStart.Store(time.Now().UnixNano())
+		defer curStart.Store(0)
+		return f(t)
+	}
+}
+
+func watchdog() {
+	for {
+		time.Sleep(250 * time.Millisecond)
+		s := curStart.Load()
+		if s == 0 {
+			continue
+		}
+		var ms runtime.MemStats
+		runtime.ReadMemStats(&ms)
+		late := time.Since(time.Unix(0, s)) > 20*time.Second
+		if late || ms.HeapAlloc > 3<<30 {
+			op, _ := curOp.Load().(string)
+			if len(op) > 600 {
+				op = op[:600]
+			}
+			fmt.Fprintf(os.Stderr, "C02 watchdog: unbounded decode (running >20s: %v, heap %d MiB) on op: %s\n", late, ms.HeapAlloc>>20, op)
+			os.Exit(2)
+		}
+	}
+}
+
 func main() {
-	hx.Main(&hx.Prop{Name: "C02", Gen: gen, Exec: wire.Exec, Oracle: oracle, Nontrivial: nontrivial, Bucket: bucket})
+	go watchdog()
+	hx.Main(&hx.Prop{Name: "C02", Gen: gen, Exec: watched(wire.Exec), Oracle: oracle, Nontrivial: nontrivial, Bucket: bucket})
 }
